@@ -115,6 +115,11 @@ def select_table(ob, b, kind):
             return "sleep=map(td)"
         if name_matches(c.fn, ("tokio::time::sleep::sleep", "tokio::time::sleep::sleep_until", "tokio::time::timeout::timeout")):
             return "sleep?"
+        if name_matches(c.fn, "core::option::Option::or") and len(c.args) == 2:
+            ws_ = (who_field(oo.of_operand(c.args[0])), who_field(oo.of_operand(c.args[1])))
+            if set(ws_) == {"req", "def"}:
+                return f"td=or({ws_[0]},{ws_[1]})" if c.dest == L else f"o=or({ws_[0]},{ws_[1]})"
+            return "call:or(?)"
         if isinstance(c.dest, int) and c.dest in carriers:
             if name_matches(c.fn, ("cmp::min", "cmp::Ord::min")) and {who_field(oo.of_operand(c.args[0])), who_field(oo.of_operand(c.args[1]))} == {"req", "def"}:
                 return "v=min(req,def)"
@@ -164,6 +169,11 @@ def select_table(ob, b, kind):
                     return "td=Some(max)"
                 return f"td=Some({who_field(t)})"
             t = oo.of_rvalue(rv)
+            ts_ = strip_identity(t)
+            if ts_[0] == "call" and name_matches(ts_[1], "core::option::Option::or") and len(ts_[2]) == 2:
+                ws_ = (who_field(ts_[2][0]), who_field(ts_[2][1]))
+                if set(ws_) == {"req", "def"}:
+                    return f"td=or({ws_[0]},{ws_[1]})"
             w = who_field(t)
             if w in ("req", "def") and rv["k"] == "use":
                 return f"td={w}"          # the whole Option copied
@@ -198,6 +208,8 @@ def select_table(ob, b, kind):
                     td = f"Some({lastv})"
             elif s.startswith("cmp:"):
                 cmps.append(s)
+            elif s.startswith("o=or("):
+                pass                # the Option produced by `a.or(b)`; named when it is stored into the timeout (td=or(..))
             else:
                 rest.append(s)
         key = (conds.get("req"), conds.get("def"))
@@ -206,6 +218,15 @@ def select_table(ob, b, kind):
                    f"{kind}/call-skeleton/{skeleton.replace(' ', '_')}",
                    f"{b.path}: path does `{skeleton}` instead of parse → inner.call(req) once → sleep from the effective timeout → ResponseFuture",
                    b.path, b.loc())
+        if td is not None and td.startswith("or("):
+            # `first.or(second)`: the first one that is present; evaluated for every (header, default) case this path covers
+            first, second = td[3:-1].split(",")
+            for r_ in ([key[0]] if key[0] in ("Some", "None") else ["Some", "None"]):
+                for d_ in ([key[1]] if key[1] in ("Some", "None") else ["Some", "None"]):
+                    pres = {"req": r_ == "Some", "def": d_ == "Some"}
+                    v_ = f"Some({first})" if pres[first] else (f"Some({second})" if pres[second] else "None")
+                    table.setdefault((r_, d_), set()).add((v_, tuple(cmps)))
+            continue
         table.setdefault(key, set()).add((td, tuple(cmps)))
     return table
 
@@ -311,6 +332,8 @@ def run(cx):
                 r = strip_identity(subj[1])
                 if r[0] == "call" and name_matches(r[1], "Try::branch"):
                     return "parsed=" + lab
+                if r[0] == "call" and name_matches(r[1], "core::str::parse"):      # the `?` written out as a match on the parse result
+                    return "parsed=" + {"Ok": "Continue", "Err": "Break"}.get(lab, lab)
                 if r[0] == "call" and name_matches(r[1], "HashMap::get"):
                     return "hdr=" + lab
             return "?cond"
@@ -324,6 +347,8 @@ def run(cx):
                         return "ret=Ok(None)"
                     if i[0] == "agg" and i[2].endswith("Option::Some") and term_has_call(i[3][0], "Duration::from_nanos"):
                         return "ret=Ok(Some(nanos))"
+                if t[0] == "agg" and t[2].endswith("Result::Err"):
+                    return "ret=Err"
                 return "ret=?" + show(t)[:50]
             return None
         ws = words_of(b, call_sym, edge_sym, stmt_sym)
@@ -351,6 +376,18 @@ def run(cx):
                     return "poll(?)"
                 if name_matches(c.fn, ("tokio::task::spawn::spawn", "tokio::spawn")):
                     return "spawn"
+                if name_matches(c.fn, "core::task::poll::Poll::map") and c.dest == 0:
+                    # `sleep.poll(cx).map(|()| <timeout outcome>)`: Pending stays Pending, Ready becomes Ready(closure value)
+                    src = strip_identity(oo.of_operand(c.args[0]))
+                    cl = oo.of_operand(c.args[1])
+                    kb = prog.bodies.get(cl[2]) if cl[0] == "agg" and cl[1] == "closure" else None
+                    if src[0] == "call" and name_matches(src[1], "Future::poll") and mentions_field(src[2][0], "sleep") and kb is not None:
+                        r = Origins(kb).of_local(0)
+                        if r[0] == "agg" and r[2].endswith("Result::Err") and any(x[0] == "agg" and x[2].endswith("TimeoutExpired::TimeoutExpired") for x in walk(r)):
+                            return "ret=sleepmap(Err(TimeoutExpired))"
+                        if r[0] == "agg" and r[2].endswith("Result::Ok") and any(x[0] == "agg" and x[2].endswith("StatusCode::RequestTimeout") for x in walk(r)):
+                            return "ret=sleepmap(Ok(RequestTimeout))"
+                    return "ret=map(?)"
                 return None
 
             def edge_sym(a, bb, subj, labels, oo):
@@ -382,6 +419,16 @@ def run(cx):
                     return "ret=?" + show(t)[:60]
                 return None
             ws = words_of(b, call_sym, edge_sym, stmt_sym)
+            ws2 = set()
+            for w in ws:
+                sm = [x for x in w if isinstance(x, str) and x.startswith("ret=sleepmap(")]
+                if sm:
+                    i_ = w.index(sm[0])
+                    ws2.add(w[:i_] + ("sleep=Pending", "ret=Pending") + w[i_ + 1:])
+                    ws2.add(w[:i_] + ("sleep=Ready", "ret=Ready(" + sm[0][len("ret=sleepmap("):-1] + ")") + w[i_ + 1:])
+                else:
+                    ws2.add(w)
+            ws = ws2
             check_words(ob, b, ws, {
                 "poll(inner) inner=Ready ret=Ready(inner result) <return>",
                 "poll(inner) inner=Pending sleep?=None ret=Pending <return>",
